@@ -18,6 +18,7 @@
 from common import *
 import q, enc, c01
 from enc import *
+import wl
 
 UOC = ("resolvo::solver::UnsolvableOrCancelled", "resolvo::UnsolvableOrCancelled")
 PERR = "resolvo::solver::PropagationError"
@@ -43,6 +44,7 @@ def run(ctx):
         ctx.guard("unsolvable-at-root" + tag, unsolvable_at_root, ctx, crate, crs, tag)
         ctx.guard("unit-propagation" + tag, unit_propagation, ctx, crate, crs, tag)
         ctx.guard("trail" + tag, trail, ctx, crate, crs, tag)
+        ctx.guard("watch-list" + tag, wl.run, ctx, crate, crs, tag)
 
 
 def conflict_signal(ctx, crate, crs, tag):
